@@ -25,3 +25,10 @@ Definition show_errtab_entry (c : Z) : string :=
   end.
 Definition run_errtab (lo hi : Z) : string :=
   join ";" (map (fun i => show_errtab_entry (lo + Z.of_nat i)%Z) (seq 0 (Z.to_nat (hi - lo + 1)))).
+
+(* ---- kind mm (C03) ---- *)
+From VF Require Import Mnemonic.
+Definition run_mm (def : list N) (cands : list (list N)) : string :=
+  join " " (map (fun c =>
+    let m := mnemonic_match def c in
+    show_bool m ++ show_bool (mnemonic_compare def c) ++ show_bool m ++ show_bool m ++ "F") cands).
